@@ -824,6 +824,17 @@ def exportNode (dfuel : Nat) : Nat → Classes → St → Names → Nat → Exce
 def exportModule (dfuel fuel : Nat) (s : St) : Except Err Module :=
   exportModuleWith (fun cs s' => exportNode dfuel fuel cs s') s
 
+/-- `Package.to_model()` (`hugr/package.py`): `model.Package([module.to_model() for module in self.modules])` -/
+def exportPackage (dfuel : Nat) : List St → Except Err (List Module)
+  | [] => .ok []
+  | s :: rest =>
+    match exportModule dfuel (s.nodes.length + 2) s with
+    | .error e => .error e
+    | .ok m =>
+      match exportPackage dfuel rest with
+      | .error e => .error e
+      | .ok ms => .ok (m :: ms)
+
 /-- fuel sufficient for any hierarchy over the store's nodes -/
 def defaultFuel (s : St) : Nat := s.nodes.length + 2
 
